@@ -2,11 +2,15 @@ package props
 
 import (
 	"fmt"
+	"go/ast"
+	"go/token"
+	"go/types"
 	"os"
 	"runtime/debug"
 	"strings"
 
 	"verif/exprlint/core"
+	"verif/exprlint/eng"
 )
 
 func runProp(pr *Prop, p *core.Program, r *core.Report) {
@@ -218,5 +222,101 @@ func Replay(id, rule, construct string) int {
 		}
 	}
 	fmt.Printf("obligation [%s] %s no longer exists on the current tree\n", rule, construct)
+	return 0
+}
+
+// inlineUnexported: a Walker.Inline that enters the unexported plain functions of one package
+// (stages of an API function extracted into helpers are read as part of it).
+func inlineUnexported(p *core.Program, rel string) func(call *ast.CallExpr, depth int) (*ast.BlockStmt, *ast.FuncDecl) {
+	info := p.Pkg(rel).TypesInfo
+	return func(call *ast.CallExpr, depth int) (*ast.BlockStmt, *ast.FuncDecl) {
+		fn := eng.CalleeOf(info, call)
+		if fn == nil || fn.Exported() || fn.Pkg() != p.Pkg(rel).Types {
+			return nil, nil
+		}
+		if fn.Type().(*types.Signature).Recv() != nil {
+			return nil, nil
+		}
+		if _, fd := p.DeclOf(fn); fd != nil && fd.Body != nil {
+			return fd.Body, fd
+		}
+		return nil, nil
+	}
+}
+
+// errFlowFeasible: with helpers inlined, a path on which the helper returned a non-nil error
+// and the caller's following `err != nil` test failed (or the reverse) is not a path of the
+// program. The helper's last return before its "leave" is compared with the first nil test
+// of the caller after it.
+func errFlowFeasible(info *types.Info, atoms []eng.Atom) bool {
+	const (
+		none = iota
+		retNil
+		retNonNil
+	)
+	state := none
+	armed := false
+	for _, a := range atoms {
+		switch a.Kind {
+		case "return":
+			if a.Depth > 0 {
+				rs, _ := a.Node.(*ast.ReturnStmt)
+				state = none
+				if rs != nil && len(rs.Results) >= 1 {
+					last := rs.Results[len(rs.Results)-1]
+					if isNilIdent(info, last) {
+						state = retNil
+					} else if id, ok := eng.Unparen(last).(*ast.Ident); ok {
+						if t := info.TypeOf(id); t != nil && types.Identical(t, types.Universe.Lookup("error").Type()) {
+							state = retNonNilIfTested(atoms, a, info, id)
+						}
+					}
+				}
+			}
+		case "leave":
+			if a.Depth == 0 {
+				armed = state != none
+			}
+		case "cond":
+			if a.Depth == 0 && armed {
+				armed = false
+				if b, ok := eng.Unparen(a.Node.(ast.Expr)).(*ast.BinaryExpr); ok && isNilIdent(info, b.Y) {
+					nonNil := (b.Op == token.NEQ) == a.Taken
+					if (state == retNonNil && !nonNil) || (state == retNil && nonNil) {
+						return false
+					}
+				}
+				state = none
+			}
+		case "call", "assign":
+			if a.Depth == 0 && a.Kind == "call" {
+				// another call between the helper and the test: stop correlating
+				armed = false
+			}
+		}
+	}
+	return true
+}
+
+// retNonNilIfTested: the returned error variable is known non-nil when the return sits under a
+// taken `err != nil` test of that variable on this path.
+func retNonNilIfTested(atoms []eng.Atom, ret eng.Atom, info *types.Info, id *ast.Ident) int {
+	for i := range atoms {
+		if atoms[i].Node == ret.Node {
+			for j := i - 1; j >= 0; j-- {
+				if atoms[j].Kind == "cond" {
+					if b, ok := eng.Unparen(atoms[j].Node.(ast.Expr)).(*ast.BinaryExpr); ok && isNilIdent(info, b.Y) {
+						if x, ok := eng.Unparen(b.X).(*ast.Ident); ok && info.Uses[x] == info.Uses[id] {
+							if (b.Op == token.NEQ) == atoms[j].Taken {
+								return 2
+							}
+							return 1
+						}
+					}
+					break
+				}
+			}
+		}
+	}
 	return 0
 }
